@@ -111,11 +111,14 @@ theorem signed_root_never_reset [DecidableEq H] (T : TreeOps H Chain) (bhtRoot :
 
 /-- **every accepted block set hashes to the signed root**, whatever the sequence of rejected shares
 before or after it: a share is only ever validated against the root seeded from the signed prefix,
-never against a root computed from other (unsigned) shares. -/
+never against a root computed from other (unsigned) shares; and "hashes to" means that the supplied
+hashes connect the leaf all the way up (`chainRoot = some …`): a chain that stops below the root
+(`none`, NotEnoughHashesError in `set_hashes`, also for parents it computed itself) never validates a
+share -- `surplus_variant_counterexample` shows what happens otherwise. -/
 theorem accepted_blocks_hash_to_signed_root [DecidableEq H] (T : TreeOps H Chain) (bhtRoot : Blocks → H)
     (root : H) (evs : List (REv Chain Blocks)) (i : Nat) (b : Blocks)
     (h : (i, b) ∈ (rrun T bhtRoot (Retr.setup root) evs).shares) :
-    ∃ c, T.chainRoot c i (bhtRoot b) = root :=
+    ∃ c, T.chainRoot c i (bhtRoot b) = some root :=
   (rinv_run T bhtRoot root evs _ (rinv_setup T bhtRoot root)).2 i b h
 
 omit [DecidableEq FP] in
@@ -126,7 +129,7 @@ rejected shares -- holds exactly the blocks `v` wrote for that share number.  `h
 "the computed root equals the known root". -/
 theorem retrieve_validates_only_published_blocks [DecidableEq H] (P : Prims PK Sig H FP Chain Blocks)
     (capFp : FP) (W : World P capFp) (T : TreeOps H Chain)
-    (hT : ∀ c i leaf root, T.chainRoot c i leaf = root → P.chainOk c i leaf root = true)
+    (hT : ∀ c i leaf root, T.chainRoot c i leaf = some root → P.chainOk c i leaf root = true)
     (v : Version H Blocks) (hv : W.published v) (evs : List (REv Chain Blocks)) (i : Nat) (b : Blocks)
     (h : (i, b) ∈ (rrun T P.bhtRoot (Retr.setup v.pre.root) evs).shares) :
     b = v.blocksOf i := by
@@ -139,10 +142,23 @@ theorem retrieve_validates_only_published_blocks [DecidableEq H] (P : Prims PK S
 share hash tree (`rstepReset`, not the code), one rejected share followed by shares of another,
 mutually consistent, family makes the reader validate blocks that do not hash to the signed root. -/
 theorem reset_variant_counterexample :
-    let evs : List (REv Nat Toy.TH) := [.offer 0 1 (.leafOf 1 0), .offer 1 1 (.leafOf 1 1), .offer 2 1 (.leafOf 1 2)]
+    let evs : List (REv (Nat × Bool) Toy.TH) :=
+      [.offer 0 (1, true) (.leafOf 1 0), .offer 1 (1, true) (.leafOf 1 1), .offer 2 (1, true) (.leafOf 1 2)]
     let r := evs.foldl (rstepReset Toy.ops id) (Retr.setup (Toy.TH.fam 0))
     r.shares = [(1, .leafOf 1 1), (2, .leafOf 1 2)] ∧ r.tree = some (.fam 1) ∧
     (rrun Toy.ops id (Retr.setup (Toy.TH.fam 0)) evs).shares = [] := by decide
+
+/-- a leaf must be CONNECTED to the signed root: in the variant where a node without a known sibling is
+dropped as a "surplus hash" unless it was passed in as a leaf (`rstepSurplus`, not the code), two
+sibling shares of another family whose chains stop below the root (they name only each other's leaf)
+are validated although nothing ties them to the signed root; the code as modelled rejects both and
+goes on to validate genuine shares. -/
+theorem surplus_variant_counterexample :
+    let evs : List Toy.Ev := [.truncated 0 1, .truncated 1 1, .offer 2 0]
+    (evs.foldl (fun r e => rstepSurplus Toy.ops id r (Toy.toREv e)) (Retr.setup (Toy.TH.fam 0))).shares
+      = [(0, .leafOf 1 0), (1, .leafOf 1 1), (2, .leafOf 0 2)] ∧
+    (rrun Toy.ops id (Retr.setup (Toy.TH.fam 0)) (evs.map Toy.toREv)).shares = [(2, .leafOf 0 2)] ∧
+    (Toy.run (some 0) evs).1 = [false, false, true] := by decide
 
 /-- non-vacuity: a genuine share is validated after a forged and a damaged one were rejected, and
 forged ones keep being rejected afterwards -/
